@@ -762,8 +762,8 @@ def set_use_caps(polygon, index_list, add=False, tol=1.0e-10,
                                    polygon.x[j, :])**2) < t2:
                             if ((np.absolute(polygon.cm[i] -
                                              polygon.cm[j]) < tol) or
-                                ((polygon.cm[i] +
-                                  polygon.cm[j]) < tol and not allow_neg_doubles)):
+                                (np.absolute(polygon.cm[i] +
+                                             polygon.cm[j]) < tol and not allow_neg_doubles)):
                                 #
                                 # Don't use
                                 #
